@@ -658,7 +658,7 @@ def gen_cases(ctx, round):
         tables.append((fixed_table(5), "fixed5"))
         tables.append((fixed_table(1), "fixed1"))
         tables.append((fixed_table(4 if quick else 6), "fixedN"))
-    for _ in range(ctx.n(3, 8) if round == 0 else 2):
+    for _ in range(ctx.n(3, 5) if round == 0 else 2):
         text = r.random() < 0.6
         tables.append((rand_table(r, r.choice([1, 2, 3, 4, 5, 6, 6, 9]) if not quick else r.choice([2, 3, 5, 6]),
                                   r.randint(1, 5), text, big=True), "random-text" if text else "random-binary"))
@@ -677,7 +677,7 @@ def gen_cases(ctx, round):
         for delim in delims:
             # adversarial rows x every style
             if round == 0:
-                full_cross = (not quick) or (tfam == "fixed5" and delim in (None, ","))
+                full_cross = (tfam.startswith("fixed") if not quick else (tfam == "fixed5" and delim in (None, ",")))
                 for rows in adversarial_rows(n):
                     for style, api in (STYLES if full_cross else r.sample(STYLES, 2)):
                         cs.append(complete(r, tbl, delim, style, api, rows, r.choice(cols_all)))
@@ -698,7 +698,7 @@ def gen_cases(ctx, round):
             # slices: exhaustive (thorough, n <= 6, fixed tables) or sampled
             pool = slice_pool(n)
             exhaustive = (not quick) and round == 0 and tfam.startswith("fixed") and n <= 6 and delim in (None, ",")
-            chosen = pool if exhaustive else r.sample(pool, min(len(pool), ctx.n(25, 150)))
+            chosen = pool if exhaustive else r.sample(pool, min(len(pool), ctx.n(25, 80)))
             for rows in chosen:
                 style, api = r.choice([s for s in STYLES if s[0] in ("SGetitem", "SChain")])
                 cs.append(complete(r, tbl, delim, style, api, rows, r.choice(cols_all)))
@@ -711,7 +711,7 @@ def gen_cases(ctx, round):
                         style, api = r.choice(STYLES)
                         cs.append(complete(r, tbl, delim, style, api, ["list", list(l)], r.choice(cols_all)))
             # seeded random
-            for _ in range(ctx.n(25, 200)):
+            for _ in range(ctx.n(25, 100)):
                 style, api = r.choice(STYLES)
                 cs.append(complete(r, tbl, delim, style, api, rand_rows(r, n, style in ("SGetitem", "SChain")),
                                    r.choice(cols_all)))
